@@ -895,4 +895,250 @@ theorem delete_effect (ms : Stmt) (spec node : Entry) (h : (delete_ ms spec node
     simp [hl, hll, effectDel, hm, hM, listLike_setMin, propsOf_setMax (setMin n3 0) _ (by rw [listLike_setMin, hl, hll]),
       propsOf_setMin n3 _ (by rw [hl, hll]), hp3, maxOpt_maxU64]
 
+
+/-! ### one deviate statement against RFC 7950 §7.20.3.2 -/
+
+/-- The conditions the code checks: those the property lists, and "several defaults for a node that
+takes one" (which the parser never lets through: a deviate statement holds one default). -/
+def reportedByCode (e : DevErr) : Bool := e.claimed || e == .manyDefaults
+
+/-- No broken condition in the list is one the code checks. -/
+def unrep (l : List DevErr) : Bool := l.all fun e => !reportedByCode e
+
+theorem unrep_iff (l : List DevErr) : unrep l = true ↔ ∀ e ∈ l, reportedByCode e = false := by
+  simp [unrep]
+
+theorem effect_add (ins : Bool) (spec node : Entry) (kind : String) (hk : kindOf kind = .add) :
+    effect ins (propsOf node) (stmtOf kind spec) = some (effectAR true spec (propsOf node)) := by
+  unfold effect
+  simp only [stmtOf, hk, effectAR, defAR]
+  cases spec.d.hasMin <;> cases spec.d.hasMax <;> simp
+
+theorem effect_replace (ins : Bool) (spec node : Entry) (kind : String) (hk : kindOf kind = .replace) :
+    effect ins (propsOf node) (stmtOf kind spec) = some (effectAR false spec (propsOf node)) := by
+  unfold effect
+  simp only [stmtOf, hk, effectAR, defAR]
+  cases spec.d.hasMin <;> cases spec.d.hasMax <;> simp
+
+theorem effect_delete (ins : Bool) (spec node : Entry) (kind : String) (hk : kindOf kind = .delete) :
+    effect ins (propsOf node) (stmtOf kind spec) = some (effectDel spec (propsOf node)) := by
+  unfold effect
+  simp only [stmtOf, hk, effectDel, defDel]
+  cases spec.d.hasMin <;> cases spec.d.hasMax <;> simp
+
+
+theorem unrep_append (a b : List DevErr) : unrep (a ++ b) = (unrep a && unrep b) := by simp [unrep]
+theorem unrep_nil : unrep [] = true := rfl
+theorem unrep_vAdd {α} (p : PropName) (hp : p ≠ .default) (present : Bool) (arg : Option α) : unrep (vAdd p present arg) = true := by
+  unfold vAdd; split
+  · cases p <;> first | exact absurd rfl hp | rfl
+  · rfl
+theorem unrep_vReplace {α} (p : PropName) (present : Bool) (arg : Option α) : unrep (vReplace p present arg) = true := by
+  unfold vReplace; split <;> rfl
+theorem unrep_vBound {α} (p : PropName) (ll : Bool) (arg : Option α) : unrep (vBound p ll arg) = !(arg.isSome && !ll) := by
+  unfold vBound; split
+  · next h => rw [h]; rfl
+  · next h => simp at h; cases ha : arg.isSome <;> cases hl : ll <;> simp_all [unrep]
+
+theorem unrep_ite (c : Prop) [Decidable c] (a b : List DevErr) : unrep (if c then a else b) = if c then unrep a else unrep b := by
+  split <;> rfl
+
+theorem violations_add (p : NodeProps) (s : DeviateStmt) (hk : s.kind = .add) :
+    unrep (violations p s) =
+      ((s.default.isEmpty || p.leafList || (decide (s.default.length ≤ 1) && p.default.isEmpty)) &&
+        !(s.min.isSome && !p.listLike) && !(s.max.isSome && !p.listLike)) := by
+  unfold violations
+  simp only [hk, unrep_append, unrep_ite, unrep_nil, unrep_vBound]
+  simp only [unrep_vAdd, ne_eq, reduceCtorEq, not_false_eq_true, ite_self, Bool.true_and, Bool.and_true]
+  by_cases a : (s.default.isEmpty || p.leafList) = true
+  · simp only [a, if_true]
+    simp at a
+    rcases a with a | a <;> simp [a]
+  · simp only [a, if_false, Bool.false_eq_true]
+    simp at a
+    by_cases b : s.default.length > 1 <;> by_cases c : p.default.isEmpty = true <;>
+      simp [a, b, c, unrep, reportedByCode, DevErr.claimed]
+    · intro h; omega
+    · have : s.default.length ≤ 1 := by omega
+      simp [this]
+
+
+theorem violations_replace (p : NodeProps) (s : DeviateStmt) (hk : s.kind = .replace) :
+    unrep (violations p s) = (!(s.min.isSome && !p.listLike) && !(s.max.isSome && !p.listLike)) := by
+  unfold violations
+  simp only [hk, unrep_append, unrep_ite, unrep_nil, unrep_vBound, unrep_vReplace, ite_self, Bool.true_and, Bool.and_true]
+  split <;> rfl
+
+theorem unrep_vDelete_unclaimed {α} [DecidableEq α] (p : PropName) (hp : p = .config ∨ p = .mandatory) (cur arg : Option α) :
+    unrep (vDelete p cur arg) = true := by
+  unfold vDelete
+  rcases hp with rfl | rfl <;> (split <;> first | rfl | (split <;> rfl))
+
+theorem unrep_vDelete_claimed {α} [DecidableEq α] (p : PropName) (hp : p = .default ∨ p = .min ∨ p = .max)
+    (cur arg : Option α) : unrep (vDelete p cur arg) = (arg.isNone || decide (arg = cur)) := by
+  unfold vDelete
+  rcases hp with rfl | rfl | rfl <;> cases arg <;> cases cur <;> simp [unrep, reportedByCode, DevErr.claimed] <;>
+    (split <;> simp_all [reportedByCode, DevErr.claimed])
+
+theorem violations_delete (p : NodeProps) (s : DeviateStmt) (hk : s.kind = .delete) :
+    unrep (violations p s) =
+      ((if p.leafList then s.default.all (p.default.contains ·)
+        else (s.default.head?.isNone || decide (s.default.head? = p.default.head?))) &&
+       !(s.min.isSome && !p.listLike) && (!p.listLike || s.min.isNone || decide (s.min = some p.min)) &&
+       !(s.max.isSome && !p.listLike) && (!p.listLike || s.max.isNone || decide (s.max = some p.max))) := by
+  unfold violations
+  simp only [hk, unrep_append, unrep_ite, unrep_nil, unrep_vBound,
+    unrep_vDelete_unclaimed _ (Or.inl rfl), unrep_vDelete_unclaimed _ (Or.inr rfl),
+    unrep_vDelete_claimed _ (Or.inl rfl), unrep_vDelete_claimed _ (Or.inr (Or.inl rfl)),
+    unrep_vDelete_claimed _ (Or.inr (Or.inr rfl)), Bool.true_and, Bool.and_true]
+  have hu : unrep [if p.default.isEmpty = true then DevErr.deleteAbsent PropName.default
+      else DevErr.deleteMismatch PropName.default] = false := by split <;> rfl
+  have hall : (s.default.all fun x => decide (x ∈ p.default)) = decide (∀ x, x ∈ s.default → x ∈ p.default) := by
+    rw [Bool.eq_iff_iff]; simp [List.all_eq_true]
+  simp only [hu]
+  cases hl : p.leafList <;> cases hll : p.listLike <;> simp [hall]
+
+
+theorem maxOpt_inj (a b : Nat) : maxOpt a = maxOpt b ↔ a = b := by
+  unfold maxOpt
+  by_cases ha : a = maxU64 <;> by_cases hb : b = maxU64 <;> simp [ha, hb]
+  all_goals first | exact fun h => hb h.symm | exact ha
+
+theorem default_stCfg (sd : EData) (n : Entry) : (stCfg sd n).d.default = n.d.default :=
+  congrArg NodeProps.default (propsOf_stCfg sd n)
+theorem default_stCfgDel (sd : EData) (n : Entry) : (stCfgDel sd n).d.default = n.d.default :=
+  congrArg NodeProps.default (propsOf_stCfgDel sd n)
+
+theorem kind_stmtOf (kind : String) (spec : Entry) : (stmtOf kind spec).kind = kindOf kind := rfl
+
+/-- **What the code reports, exactly**: a deviate statement is applied without an error iff none of
+the RFC conditions it breaks is one of the conditions the code checks, and it is not a deletion of a
+leaf-list default (always refused).  (`hasParent`: only the root of a module tree has none; a
+not-supported naming it is refused.) -/
+theorem staged_errs (opts : Opts) (ms : Stmt) (kind : String) (spec : Entry) (hp : Bool) (node : Entry)
+    (hhp : kindOf kind = .notSupported → hp = true) :
+    (staged opts ms kind spec hp node).2.2 = [] ↔
+      (unrep (violations (propsOf node) (stmtOf kind spec)) = true ∧
+       leafListDeleteUnsupported (propsOf node) (stmtOf kind spec) = false) := by
+  unfold staged
+  cases hk : kindOf kind with
+  | add =>
+    simp only []
+    rw [addReplace_errs, stDefAR_errs, violations_add _ _ (by rw [kind_stmtOf, hk]), (flags_stCfg _ _).2, default_stCfg]
+    simp only [leafListDeleteUnsupported, kind_stmtOf, hk]
+    simp only [stmtOf, propsOf]
+    cases spec.d.hasMin <;> cases spec.d.hasMax <;> cases listLike node <;> simp [or_assoc]
+    all_goals grind
+  | replace =>
+    simp only []
+    rw [addReplace_errs, stDefAR_errs, violations_replace _ _ (by rw [kind_stmtOf, hk])]
+    simp only [leafListDeleteUnsupported, kind_stmtOf, hk]
+    simp only [stmtOf, propsOf]
+    cases spec.d.hasMin <;> cases spec.d.hasMax <;> cases listLike node <;> simp
+  | notSupported =>
+    simp only [notSupported, hhp hk]
+    simp [violations, kind_stmtOf, hk, leafListDeleteUnsupported, unrep_nil]
+  | delete =>
+    simp only []
+    rw [delete_errs, stDefDel_errs, violations_delete _ _ (by rw [kind_stmtOf, hk]), (flags_stCfgDel _ _).2, default_stCfgDel]
+    simp only [leafListDeleteUnsupported, kind_stmtOf, hk]
+    simp only [stmtOf, propsOf]
+    have hD2 : (spec.d.default = [] ∨ ¬ node.d.default = [] ∧ spec.d.default.head? = node.d.default.head?) ↔
+        (spec.d.default = [] ∨ spec.d.default.head? = node.d.default.head?) := by
+      cases spec.d.default <;> cases node.d.default <;> simp
+    have e1 : specMin spec.d = nodeMin node ↔ nodeMin node = specMin spec.d := eq_comm
+    have e2 : specMax spec.d = nodeMax node ↔ nodeMax node = specMax spec.d := eq_comm
+    by_cases hm : spec.d.hasMin = true <;> by_cases hM : spec.d.hasMax = true <;> by_cases hll : listLike node = true <;>
+      by_cases hlf : node.isLeafList = true <;>
+      simp [hm, hM, hll, hlf, maxOpt_inj, hD2, e1, e2]
+    all_goals grind
+  | other =>
+    simp [violations, kind_stmtOf, hk, unrep, reportedByCode, DevErr.claimed]
+
+
+/-- **What the code does when it reports nothing**: exactly the effect §7.20.3.2 prescribes for the
+statement (removal of the node for not-supported, unless the option says to keep it). -/
+theorem staged_effect (opts : Opts) (ms : Stmt) (kind : String) (spec : Entry) (hp : Bool) (node : Entry)
+    (h : (staged opts ms kind spec hp node).2.2 = []) :
+    effect opts.ignoreNotSupported (propsOf node) (stmtOf kind spec) =
+      if (staged opts ms kind spec hp node).2.1 then none
+      else some (propsOf (staged opts ms kind spec hp node).1) := by
+  unfold staged at h ⊢
+  cases hk : kindOf kind with
+  | add =>
+    simp only [hk] at h ⊢
+    obtain ⟨h1, h2⟩ := addReplace_effect ms true spec node h
+    rw [effect_add _ _ _ _ hk, h1, h2]; rfl
+  | replace =>
+    simp only [hk] at h ⊢
+    obtain ⟨h1, h2⟩ := addReplace_effect ms false spec node h
+    rw [effect_replace _ _ _ _ hk, h1, h2]; rfl
+  | delete =>
+    simp only [hk] at h ⊢
+    obtain ⟨h1, h2⟩ := delete_effect ms spec node h
+    rw [effect_delete _ _ _ _ hk, h1, h2]; rfl
+  | notSupported =>
+    simp only [hk, notSupported] at h ⊢
+    cases hp with
+    | false => simp at h
+    | true =>
+      unfold effect
+      simp only [kind_stmtOf, hk, Bool.not_true, Bool.false_eq_true, if_false]
+      by_cases hi : opts.ignoreNotSupported = true <;> simp [hi]
+  | other => simp [hk] at h
+
+/-! #### what no deviate statement touches -/
+
+/-- Children and the data fields outside §7.20.3: name, kind, `Dir` presence, description, key, rpc
+flag, namespace stamp, recorded errors, source node, presence and ordered-by of the list attributes. -/
+def untouched (n : Entry) :=
+  (n.dir, n.inp, n.out, n.d.name, n.d.kind, n.d.hasDir, n.d.description, n.d.key, n.d.isRpc, n.d.ns, n.d.errors,
+   n.d.node, n.d.nodeMod, n.d.nodeKw, n.d.hasMin, n.d.hasMax, n.d.listAttr.map (·.orderedByUser))
+
+theorem untouched_stCfg (sd : EData) (n : Entry) : untouched (stCfg sd n) = untouched n := by
+  cases n; unfold stCfg; split <;> rfl
+theorem untouched_stMand (sd : EData) (n : Entry) : untouched (stMand sd n) = untouched n := by
+  cases n; unfold stMand; split <;> rfl
+theorem untouched_stUnits (sd : EData) (n : Entry) : untouched (stUnits sd n) = untouched n := by
+  cases n; unfold stUnits; split <;> rfl
+theorem untouched_stType (sd : EData) (n : Entry) : untouched (stType sd n) = untouched n := by
+  cases n; unfold stType; split <;> rfl
+theorem untouched_stCfgDel (sd : EData) (n : Entry) : untouched (stCfgDel sd n) = untouched n := by
+  cases n; unfold stCfgDel; split <;> rfl
+theorem untouched_stMandDel (sd : EData) (n : Entry) : untouched (stMandDel sd n) = untouched n := by
+  cases n; unfold stMandDel; split <;> rfl
+theorem untouched_stDefAR (ms : Stmt) (a : Bool) (sd : EData) (n : Entry) : untouched (stDefAR ms a sd n).1 = untouched n := by
+  cases n; unfold stDefAR; repeat' split
+  all_goals rfl
+theorem untouched_stDefDel (ms : Stmt) (sd : EData) (n : Entry) : untouched (stDefDel ms sd n).1 = untouched n := by
+  cases n; unfold stDefDel; repeat' split
+  all_goals rfl
+theorem untouched_setMin (n : Entry) (v : Nat) : untouched (setMin n v) = untouched n := by
+  cases n with
+  | mk d c i o => cases h : d.listAttr <;> simp [untouched, setMin, Entry.withD, Entry.d, Entry.dir, Entry.inp, Entry.out, h]
+theorem untouched_setMax (n : Entry) (v : Nat) : untouched (setMax n v) = untouched n := by
+  cases n with
+  | mk d c i o => cases h : d.listAttr <;> simp [untouched, setMax, Entry.withD, Entry.d, Entry.dir, Entry.inp, Entry.out, h]
+
+/-- **Nothing else changes**: whatever the statement and whether or not it is reported, the node that
+comes back has the same children and the same data outside the §7.20.3 properties. -/
+theorem staged_untouched (opts : Opts) (ms : Stmt) (kind : String) (spec : Entry) (hp : Bool) (node : Entry) :
+    untouched (staged opts ms kind spec hp node).1 = untouched node := by
+  unfold staged
+  cases kindOf kind with
+  | add | replace =>
+    simp only [addReplace]
+    repeat' split
+    all_goals simp only [untouched_stCfg, untouched_stMand, untouched_stUnits, untouched_stType, untouched_stDefAR,
+      untouched_setMin, untouched_setMax]
+  | delete =>
+    have h3 : untouched (delN3 ms spec node) = untouched node := by
+      simp only [delN3, untouched_stCfgDel, untouched_stMandDel, untouched_stDefDel]
+    rw [delete_eq]
+    simp only []
+    repeat' split
+    all_goals simp only [h3, untouched_setMin, untouched_setMax]
+  | notSupported => simp only [notSupported]; split <;> rfl
+  | other => rfl
+
 end Goyang.Lemmas.Deviate
